@@ -32,6 +32,8 @@ pub(crate) fn parse_uri<R: Read>(scanner: &mut Scanner<R>) -> Result<Uri, Error>
                     scanner.read()?;
                 }
                 _ => {
+                    // Move to the escape letter the unicode escape parser expects
+                    scanner.read()?;
                     let unicode = parse_str_unicode_escape(scanner)?;
                     str.extend_from_slice(unicode.as_bytes());
                 }
